@@ -47,7 +47,10 @@ pub fn profiles() -> Vec<Profile> {
             max_len: 3,
             empties: vec![0, 3, 5, 8, 10],
             big_alloc: true,
-            prefix: vec![AOp::Read { max: 0, ordered: false }],
+            prefix: vec![AOp::Read {
+                max: 0,
+                ordered: false,
+            }],
             ordered_reads: false,
         },
         // Short stream: everything, deeper.
@@ -67,7 +70,10 @@ pub fn profiles() -> Vec<Profile> {
             max_len: 3,
             empties: vec![0, 2, 5],
             big_alloc: true,
-            prefix: vec![AOp::Read { max: 0, ordered: false }],
+            prefix: vec![AOp::Read {
+                max: 0,
+                ordered: false,
+            }],
             ordered_reads: false,
         },
     ]
@@ -75,9 +81,16 @@ pub fn profiles() -> Vec<Profile> {
 
 #[derive(Clone, Copy, Debug, PartialEq, Eq)]
 pub enum AOp {
-    Insert { off: u8, len: u8, big: bool },
+    Insert {
+        off: u8,
+        len: u8,
+        big: bool,
+    },
     /// `max == 0` stands for `usize::MAX`
-    Read { max: u8, ordered: bool },
+    Read {
+        max: u8,
+        ordered: bool,
+    },
     Clear,
 }
 
@@ -125,7 +138,11 @@ impl AsmSys {
             .collect();
         format!(
             "{} cursor={} [{}]",
-            if self.unordered { "unordered" } else { "ordered" },
+            if self.unordered {
+                "unordered"
+            } else {
+                "ordered"
+            },
             self.cursor,
             s
         )
@@ -157,7 +174,11 @@ impl Sys for AsmSys {
         for len in 1..=p.max_len {
             for off in 0..p.stream {
                 if off + len <= p.stream {
-                    v.push(AOp::Insert { off, len, big: false });
+                    v.push(AOp::Insert {
+                        off,
+                        len,
+                        big: false,
+                    });
                 }
             }
         }
@@ -167,17 +188,28 @@ impl Sys for AsmSys {
             }
         }
         for max in [0u8, 1] {
-            v.push(AOp::Read { max, ordered: false });
+            v.push(AOp::Read {
+                max,
+                ordered: false,
+            });
         }
         v.push(AOp::Clear);
         for &off in &p.empties {
-            v.push(AOp::Insert { off, len: 0, big: false });
+            v.push(AOp::Insert {
+                off,
+                len: 0,
+                big: false,
+            });
         }
         if p.big_alloc {
             for len in 1..=p.max_len {
                 for off in 0..p.stream {
                     if off + len <= p.stream {
-                        v.push(AOp::Insert { off, len, big: true });
+                        v.push(AOp::Insert {
+                            off,
+                            len,
+                            big: true,
+                        });
                     }
                 }
             }
@@ -331,7 +363,12 @@ impl AsmSys {
             Some((off, bytes)) => {
                 let off = off as usize;
                 if bytes.is_empty() {
-                    return StepOut::bad(real, self.model_str(), "assembler:empty-chunk", "read returned an empty chunk");
+                    return StepOut::bad(
+                        real,
+                        self.model_str(),
+                        "assembler:empty-chunk",
+                        "read returned an empty chunk",
+                    );
                 }
                 if bytes.len() > max_len {
                     return StepOut::bad(
@@ -342,7 +379,12 @@ impl AsmSys {
                     );
                 }
                 if off + bytes.len() > n {
-                    return StepOut::bad(real, self.model_str(), "assembler:chunk-out-of-stream", "chunk extends past everything ever inserted");
+                    return StepOut::bad(
+                        real,
+                        self.model_str(),
+                        "assembler:chunk-out-of-stream",
+                        "chunk extends past everything ever inserted",
+                    );
                 }
                 if ordered && off != self.cursor {
                     let sig = if off > self.cursor {
@@ -354,7 +396,10 @@ impl AsmSys {
                         real,
                         self.model_str(),
                         sig,
-                        format!("ordered read returned offset {off}, read cursor is {}", self.cursor),
+                        format!(
+                            "ordered read returned offset {off}, read cursor is {}",
+                            self.cursor
+                        ),
                     );
                 }
                 for (i, &b) in bytes.iter().enumerate() {
@@ -364,7 +409,10 @@ impl AsmSys {
                             real,
                             self.model_str(),
                             "assembler:content-mismatch",
-                            format!("byte at offset {o} is {b}, written value is {}", pattern(o as u64)),
+                            format!(
+                                "byte at offset {o} is {b}, written value is {}",
+                                pattern(o as u64)
+                            ),
                         );
                     }
                     match self.st[o] {
@@ -372,7 +420,10 @@ impl AsmSys {
                         B::Returned => {
                             // bytes below the (frozen) ordered cursor were returned by ordered reads
                             let (sig, by) = if !ordered && o < self.cursor {
-                                ("assembler:byte-returned-twice:ordered-then-unordered", "ordered")
+                                (
+                                    "assembler:byte-returned-twice:ordered-then-unordered",
+                                    "ordered",
+                                )
                             } else {
                                 ("assembler:byte-returned-twice", "earlier")
                             };
@@ -391,7 +442,10 @@ impl AsmSys {
                                 real,
                                 self.model_str(),
                                 "assembler:returns-unreceived-byte",
-                                format!("byte at offset {o} returned although not buffered ({:?})", self.st[o]),
+                                format!(
+                                    "byte at offset {o} returned although not buffered ({:?})",
+                                    self.st[o]
+                                ),
                             )
                         }
                     }
